@@ -552,6 +552,7 @@ pub fn lines_cfg_case(cx: &mut Ctx, text: &str, cfgbits: u64, batch: usize, deli
         Err(p) => cx.sum.fail(cell, None, cj, &format!("panicked: {}", p)),
         Ok(bad) => if !bad.is_empty() { cx.sum.fail(cell, None, cj, &bad.join("; ")); }
     }
+    x::lines_cfg_emit(cx, text, cfgbits, batch, delim);
 }
 
 // ---------------------------------------------------------------- lexicographic iterator: operation histories for the model
